@@ -54,7 +54,9 @@ def make_cfg(seed, i):
     rb = rhobeg if rhobeg is not None else 0.1 * max(float(np.max(np.abs(cfg["x0"]))), 1.0)
     cfg["args"]["rhoend"] = float(rb * 10.0 ** rng.uniform(-7, -0.2))
     if r() < 0.35:
-        up["tr_radius.alpha1"] = float(rng.uniform(0.03, 0.6))
+        # log-uniform over the documented range (0, 1): values below 1/250 matter (rho is multiplied by alpha1 only while
+        # rho > 250*rhoend, so a smaller alpha1 can jump over rhoend)
+        up["tr_radius.alpha1"] = float(10.0 ** rng.uniform(-4, -0.1))
         up["tr_radius.alpha2"] = float(rng.uniform(0.1, 0.95))
     if up.get("restarts.use_restarts") and r() < 0.4:
         up["restarts.rhoend_scale"] = float(gen.pick(rng, [0.5, 0.1, 0.9]))
